@@ -46,7 +46,9 @@ public:
 	void common_op(const sim_xop *x);
 	FILE *in_file();
 protected:
-	int LexerInput(char *buf, int max_size);
+#if SIM_USER_INPUT
+	int LexerInput(char *buf, int max_size);     /* the simulator's routine; otherwise yyFlexLexer's own, on a simulated std::streambuf */
+#endif
 	void LexerOutput(const char *buf, int size) { (void) buf; (void) size; }
 	void LexerError(const char *msg) { sim_fatal(msg); }
 };
